@@ -11,14 +11,14 @@
    and a final DONE line with the number of records consumed.                *)
 EXTENDS Tokens, TraceIO
 
-VARIABLE reg
+VARIABLE rg
 
-Init == TInit /\ reg = EmptyReg
+Init == TInit /\ rg = EmptyReg
 Next ==
   \/ /\ l <= Len(Recs)
      /\ LET r == Recs[l]
-            s == RegStep(reg, r)
-        IN /\ reg' = s.reg
+            s == RegStep(rg, r)
+        IN /\ rg' = s.reg
            /\ IF s.bad = {} THEN nbad' = nbad
               ELSE /\ nbad' = nbad + 1
                    /\ PrintT(<<"REJECT", r.id, s.bad>>)
@@ -26,5 +26,5 @@ Next ==
   \/ /\ l = Len(Recs) + 1
      /\ PrintT(<<"DONE", Len(Recs), nbad>>)
      /\ l' = l + 1
-     /\ UNCHANGED <<nbad, reg>>
+     /\ UNCHANGED <<nbad, rg>>
 =============================================================================
